@@ -244,12 +244,12 @@ def audit_cases(rng, full):
             body = S.enc_struct(S.OPS[op][1], f) + q['payload']
             h = q['hdr']
             req = S.in_header(40 + len(body), op, h['unique'], h['nodeid'], h['uid'], h['gid'], h['pid']) + body
-            mk(q, S.gen_fs(rng, OK_KIND[op][0], op, f), req=req, half=i % 2, **{'yield': i % 3 == 0})
+            mk(q, S.gen_fs(rng, OK_KIND[op][0], op, f), req=req, half=int(i % 3 != 0), **{'yield': i % 2 == 0})
     # C. every error kind / boundary errno through every reply-helper path
     for op in (ASYNC_OPS if full else (3, 15, 16, 35)):
         for i, e in enumerate([('err', 'kind', k) for k in range(10)] + [('err', 'os', 1), ('err', 'os', 4095)]):
             q = S.gen_wf(rng, op)
-            mk(q, e, half=i % 2, **{'yield': i % 2 == 1})
+            mk(q, e, half=int(i % 3 != 0), **{'yield': i % 2 == 1})
     # D. count returned by write larger than 32 bits (`count as u32`)
     for n_ in ((1 << 32) + 5, (1 << 64) - 1):
         for tr in trs:
@@ -302,7 +302,7 @@ def gen(rng, n, start=0, targeted='full', witnesses=True, config_block=True):
         cases += config_cases(rng)
         cases += audit_cases(rng, targeted == 'full')
         er = early_return_cases(rng)
-        for i, c in enumerate(er): c['block'] = 'early'; c['half'] = i % 2
+        for i, c in enumerate(er): c['block'] = 'early'; c['half'] = int(i % 3 != 0)
         cases += er
         # malformed names of every opcode that carries strings: lookup / create (async handlers) on both transports, the
         # fall-back opcodes alternating
